@@ -30,6 +30,7 @@ def run(ck, tier):
     _quotes_last(ck, p, byk)
     _stale(ck, p, byk)
     stale_use(ck, p, "R-C02-stale")
+    collapse_extent(ck, p, "R-C02-condense")
     _adjacent(ck, p, byk)
     from . import c04, c05
     c04._byte_lengths(c05._Sub(ck, "R-C02-units", ""), p)
@@ -796,3 +797,157 @@ def _places_in(sx):
     if isinstance(sx.get("lhs"), list):
         out.append(sx["lhs"])
     return out
+
+
+# ---------------------------------------------------------------------------------------------------
+def _idx_expr(f, pv, op, depth=0):
+    """normal form of a usize operand: ('field', base local, name) | ('lin', expr, +/-c) | ('const', c) | ('opaque', ..)"""
+    if isinstance(op, dict) and "k" in op:
+        k = op["k"]
+        return ("const", int(k["int"])) if "int" in k else ("opaque", "const")
+    pl = place_of(op)
+    if not pl:
+        return ("opaque", "?")
+    fl = [e[2] for e in pl[1:] if isinstance(e, list) and e[0] == "f"]
+    if fl and fl[-1] in ("start", "end") and depth < 8:
+        return ("field", pl[0], tuple(fl))
+    if len(pl) >= 2 and isinstance(pl[1], list) and pl[1][0] == "f" and pl[1][1] == 0 and depth < 8:
+        # .0 of a checked-arithmetic tuple
+        ds = [x for (b, si, kind, x) in pv.defs.get(pl[0], []) if kind == "assign"]
+        if len(ds) == 1 and ds[0]["rv"]["k"] == "bin" and ds[0]["rv"]["op"].rstrip("WithOverflow") in ("Add", "Sub"):
+            rv = ds[0]["rv"]
+            a, b = _idx_expr(f, pv, rv["a"], depth + 1), _idx_expr(f, pv, rv["b"], depth + 1)
+            if b[0] == "const":
+                c = b[1] if rv["op"].startswith("Add") else -b[1]
+                if a[0] == "lin":
+                    return ("lin", a[1], a[2] + c)
+                return ("lin", a, c)
+        return ("opaque", "tuple field of _%d" % pl[0])
+    if len(pl) == 1 and depth < 8:
+        ds = [x for (b, si, kind, x) in pv.defs.get(pl[0], [])]
+        if len(ds) == 1 and "rv" in ds[0]:
+            rv = ds[0]["rv"]
+            if rv["k"] == "use":
+                return _idx_expr(f, pv, rv["op"], depth + 1)
+            if rv["k"] == "bin" and rv["op"] in ("Add", "Sub"):
+                a, b = _idx_expr(f, pv, rv["a"], depth + 1), _idx_expr(f, pv, rv["b"], depth + 1)
+                if b[0] == "const":
+                    c = b[1] if rv["op"] == "Add" else -b[1]
+                    return ("lin", a[1], a[2] + c) if a[0] == "lin" else ("lin", a, c)
+        return ("opaque", "_%d" % pl[0])
+    return ("opaque", "_%d" % pl[0])
+
+
+def _shift(e, c):
+    if c == 0:
+        return e
+    if e[0] == "lin":
+        return ("lin", e[1], e[2] + c) if e[2] + c != 0 else e[1]
+    return ("lin", e, c)
+
+
+def collapse_extent(ck, p, rule):
+    """CollapseIdentifiers: the token that survives a collapsed chain ends where the last removed token ends"""
+    fs = [f for f in p.fns.values() if keyname(p, f) == "<CollapseIdentifiers as Parser>::parse"]
+    if not ck.anchor(rule, "<CollapseIdentifiers as Parser>::parse", fs):
+        return
+    f = fs[0]
+    ck.saw(f)
+    pv = Prov(f)
+    key = "<CollapseIdentifiers@Parser>::parse:extent"
+    # the survivor's span: Span::new(_, X.span.end) that reaches Token::new
+    toks = [(bi, t) for bi, t in f.calls() if norm(inst_of(t)) == "harper_core::token::{impl}::new"]
+    spans = [(bi, t) for bi, t in f.calls() if norm(inst_of(t)) == "harper_core::span::{impl}::new"]
+    ext = [(bi, t) for bi, t in f.calls() if method(t) in ("extend", "push_back", "push") and len(t["args"]) > 1 and "VecDeque" in f.local_tystr(_root_local(f, pv, t["args"][0]) or 0)]
+    if not toks or not spans or not ext:
+        ck.undecided(rule, key, f.span, "replacement token / its span / the removal queue not found in this shape (Token::new %d, Span::new %d, queue writes %d)" % (len(toks), len(spans), len(ext)))
+        return
+    sp = [st for sb, st in spans if any(o[0] == "call" and o[1] == sb for tb, tt in toks for o in flatten(pv.trace_operand(tt["args"][0])))]
+    if len(sp) != 1:
+        ck.undecided(rule, key, f.span, "the span of the replacement token is not a single Span::new")
+        return
+    # index of the token whose span.end is used
+    endop = sp[0]["args"][1]
+    end_idx = None
+    pl = place_of(endop)
+    ds = [x for (b, si, kind, x) in pv.defs.get(pl[0], [])] if pl and len(pl) == 1 else []
+    if len(ds) == 1 and "rv" in ds[0] and ds[0]["rv"]["k"] == "use":
+        src = place_of(ds[0]["rv"]["op"])
+        if src and [e[2] for e in src[1:] if isinstance(e, list) and e[0] == "f"][-2:] == ["span", "end"]:
+            base = src[0]
+            for _ in range(4):
+                bd = [x for (b, si, kind, x) in pv.defs.get(base, [])]
+                if len(bd) != 1:
+                    break
+                x = bd[0]
+                if "rv" in x and x["rv"]["k"] == "ref":
+                    rp = x["rv"]["place"]
+                    ii = [e for e in rp[1:] if isinstance(e, list) and e[0] == "i"]
+                    if ii:
+                        end_idx = _idx_expr(f, pv, {"c": [ii[0][1]]})
+                        break
+                    base = rp[0]
+                elif "args" in x and method(x) in ("index", "index_mut", "get_unchecked") and len(x["args"]) > 1:
+                    end_idx = _idx_expr(f, pv, x["args"][1])
+                    break
+                else:
+                    break
+    if end_idx is None:
+        ck.undecided(rule, key, f.loc(sp[0]["ln"]), "the end of the replacement span is not `tokens[i].span.end` for a recognisable index i")
+        return
+    last_removed = None
+    for eb, et in ext:
+        for o in pv.trace_operand(et["args"][1]):
+            if o[0] == "agg" and str(o[2]).endswith("Range") and len(o[3]) == 2:
+                # exclusive range: last removed = end - 1 ; find the end operand again in the statement
+                for (b, si, kind, x) in pv.defs.get(place_of(et["args"][1])[0], []):
+                    if "rv" in x and x["rv"]["k"] == "agg":
+                        last_removed = _shift(_idx_expr(f, pv, x["rv"]["ops"][1]), -1)
+            elif o[0] == "call" and last(norm(o[3] or o[2] or "")) == "new" and "RangeInclusive" in f.local_tystr(f.blocks[o[1]]["t"]["dest"][0]):
+                last_removed = _idx_expr(f, pv, f.blocks[o[1]]["t"]["args"][1])
+    if last_removed is None:
+        ck.undecided(rule, key, f.loc(ext[0][1]["ln"]), "what is queued for removal is not a range with a recognisable upper bound")
+        return
+
+    def show(e):
+        if e[0] == "field":
+            return "%s.%s" % (f.debug_names().get(e[1], "_%d" % e[1]), ".".join(e[2]))
+        if e[0] == "lin":
+            return "%s%+d" % (show(e[1]), e[2])
+        if e[0] == "const":
+            return str(e[1])
+        return "<%s>" % e[1]
+    SEARCHES = {"find", "find_map", "position", "rposition", "rfind", "min", "max", "min_by_key", "max_by_key", "nth", "last", "next", "next_back", "binary_search", "partition_point"}
+
+    def searched(e):
+        """an opaque index that is the outcome of a data-dependent search: it can be any element the search ranges over"""
+        if e[0] == "lin":
+            return searched(e[1])
+        if e[0] != "opaque" or not str(e[1]).startswith("_"):
+            return False
+        l = int(str(e[1])[1:])
+        return any(o[0] == "call" and last(norm(o[3] or o[2] or "")) in SEARCHES for o in arg_roots(f, pv, {"c": [l]}))
+
+    def opaque(e):
+        return e[0] == "opaque" or (e[0] == "lin" and opaque(e[1]))
+    if end_idx != last_removed and (opaque(end_idx) or opaque(last_removed)) and not (searched(end_idx) != searched(last_removed)):
+        ck.undecided(rule, key, f.loc(sp[0]["ln"]), "the surviving token ends at tokens[%s] and removal stops at index %s: the two are computed differently and neither is the outcome of a search; whether they are always equal is not decided" % (show(end_idx), show(last_removed)))
+        return
+    if end_idx == last_removed:
+        ck.proved(rule, key, f.loc(sp[0]["ln"]), "the surviving token ends at tokens[%s].span.end and tokens up to index %s are removed" % (show(end_idx), show(last_removed)))
+    else:
+        ck.refuted(rule, key, f.loc(sp[0]["ln"]), "the surviving token is stretched to tokens[%s].span.end but the tokens queued for removal stop at index %s (one of the two is the outcome of a search and can be any position it ranges over): the tokens in between stay in the stream underneath the stretched one (overlapping tokens, characters covered twice) - or, the other way round, removed tokens leave a hole" % (show(end_idx), show(last_removed)))
+
+
+def _root_local(f, pv, op):
+    pl = place_of(op)
+    if not pl:
+        return None
+    l = pl[0]
+    for _ in range(6):
+        ds = [x for (b, si, kind, x) in pv.defs.get(l, [])]
+        if len(ds) == 1 and "rv" in ds[0] and ds[0]["rv"]["k"] == "ref":
+            l = ds[0]["rv"]["place"][0]
+        else:
+            break
+    return l
